@@ -195,6 +195,15 @@ func DoCallDepth(rt *RecT, st Step, depth int) {
 	DoCall(rt, st)
 }
 
+// DoChdir changes the working directory of the process for good (a CLI test that chdirs into a fixture directory and
+// never comes back): everything that runs later in the process sees the other directory.
+func DoChdir() {
+	d, err := os.MkdirTemp("", "scn-chdir")
+	if err == nil {
+		os.Chdir(d)
+	}
+}
+
 func DoSkip(rt *RecT, kind string) {
 	switch kind {
 	case "Skipf":
